@@ -4,6 +4,7 @@ mod common;
 mod c02;
 mod c03;
 mod c04;
+mod c05;
 mod c06;
 mod c07;
 mod c09;
@@ -43,6 +44,7 @@ fn props() -> Vec<Prop> {
     Prop { id: "C11", exec: c11::exec, classify: no_class, gen: c11::gen },
     Prop { id: "C12", exec: c12::exec, classify: no_class, gen: c12::gen },
     Prop { id: "C13", exec: c13::exec, classify: no_class, gen: c13::gen },
+    Prop { id: "C05", exec: c05::exec, classify: c05::classify, gen: c05::gen },
     Prop { id: "C06", exec: c06::exec, classify: no_class, gen: c06::gen },
     Prop { id: "C07", exec: c07::exec, classify: no_class, gen: c07::gen },
     Prop { id: "C14", exec: c14::exec, classify: no_class, gen: c14::gen },
